@@ -128,9 +128,11 @@ PROPS = {
         "level_text": "Theorems (Props/C09.lean) for every framed stream and every byte offset: a prefix ending at a document boundary decodes to exactly the fold over the "
                       "documents inside it; a prefix ending inside a document reports an error and still delivers the chunks before the cut; serialised documents are "
                       "framed; a failing or short write makes the flush fail and leaves all pending samples, a successful one moves them to the log exactly once; an Add "
-                      "whose implicit flush fails is rejected without touching the collector.",
-        "level_note": "The durability bound N*floor((k-1)/N) and exactly-once recovery over whole fault scripts are checked by the oracle on every case of the hist/fault "
-                      "streams; the theorems give the one-step laws they follow from. A short write leaves half a document in the byte log: recovery is stated over the "
+                      "whose implicit flush fails is rejected without touching the collector. durability_bound: over a writer that accepts every write, after any sequence of "
+                      "Add calls of which k were accepted, a streaming collector with chunk size N >= 1 has handed at least N*floor((k-1)/N) samples to its writer, every "
+                      "accepted sample is in the writer or among the at most N pending ones (inductive invariant DInv over all histories).",
+        "level_note": "Exactly-once recovery over whole fault scripts is checked by the oracle on every case of the hist/fault "
+                      "streams; the theorems give the one-step laws it follows from. A short write leaves half a document in the byte log: recovery is stated over the "
                       "fully successful writes.",
         "assumptions": ["documents shorter than 2^31 bytes"],
     },
